@@ -1,4 +1,4 @@
-use super::decoder::LF;
+use super::decoder::{CR, LF};
 use super::resp::{AdvanceIndex, ArrayIndex, BulkStrIndex, DataIndex, IndexedResp, RespIndex};
 use btoi::btoi;
 use bytes::BytesMut;
@@ -107,8 +107,14 @@ fn parse_bulk_str(buf: &[u8]) -> Result<(BulkStrIndex, usize), ParseError> {
         return Err(ParseError::NotEnoughData);
     }
 
-    let s = DataIndex(consumed, consumed + content_size);
-    Ok((BulkStrIndex::Str(s), consumed + content_size + 2))
+    // The payload must be terminated by CRLF.
+    let end = consumed + content_size;
+    if buf.get(end..end + 2) != Some(b"\r\n".as_ref()) {
+        return Err(ParseError::InvalidProtocol);
+    }
+
+    let s = DataIndex(consumed, end);
+    Ok((BulkStrIndex::Str(s), end + 2))
 }
 
 fn parse_len(buf: &[u8]) -> Result<(i64, usize), ParseError> {
@@ -127,8 +133,12 @@ fn parse_line(buf: &[u8]) -> Result<(DataIndex, usize), ParseError> {
         return Err(ParseError::InvalidProtocol);
     }
 
+    // The byte before LF must be CR.
+    if buf.get(lf_index - 1) != Some(&CR) {
+        return Err(ParseError::InvalidProtocol);
+    }
+
     // s >= 2
-    // Just ignore the CR
     let line = DataIndex(0, lf_index + 1 - 2);
     Ok((line, lf_index + 1))
 }
